@@ -60,6 +60,29 @@ ASSUMPTIONS = [
 
 LIM = sys.get_int_max_str_digits() or 10 ** 9
 
+_DRV: dict = {}
+
+
+def run_model(lines):
+    """common.run_driver on a private snapshot of the driver binary, taken under the lake lock: a
+    concurrent `lake build driver` of another check replaces the shared binary while it links"""
+    if "path" not in _DRV:
+        import atexit
+        import shutil
+        import tempfile
+        from pathlib import Path
+        with common.lake_lock():
+            d = tempfile.mkdtemp(prefix="c13-driver-")
+            shutil.copy2(common.DRIVER, Path(d) / "driver")
+        atexit.register(shutil.rmtree, d, True)
+        _DRV["path"] = Path(d) / "driver"
+    shared = common.DRIVER
+    common.DRIVER = _DRV["path"]
+    try:
+        return common.run_driver(lines)
+    finally:
+        common.DRIVER = shared
+
 # --------------------------------------------------------------------------
 # Layer C: independent RFC 7233 semantics (written from the property text)
 # --------------------------------------------------------------------------
@@ -464,7 +487,7 @@ def run_pure(cases, ch: Channel, tag="gen"):
             lines.append(f"range {LIM} {n} {enc_hdr(hdr)}")
             idx.append(i)
     try:
-        model = dict(zip(idx, common.run_driver(lines)))
+        model = dict(zip(idx, run_model(lines)))
     except Exception as e:
         ch.errors.append(f"driver: {e}")
         model = {}
@@ -666,7 +689,7 @@ def run_e2e(ctx, ch: Channel):
                     lines.append(f"rangeresp {res.kind} {LIM} {res.length} {enc_hdr(h)}")
                     idx.append(i)
             try:
-                model = dict(zip(idx, common.run_driver(lines)))
+                model = dict(zip(idx, run_model(lines)))
             except Exception as e:
                 ch.errors.append(f"driver: {e}")
                 model = {}
